@@ -7,7 +7,7 @@
 //! distinct) and after it was dropped (live == before, no double drop);
 //! (2) statically typed grammars over drop-tracked *tokens* on slices and streams: originals are never
 //! dropped by the parser, clones are balanced;
-//! (3) the same drivers under Miri (leak check, double free, uninitialised reads) and ASan+LSan.
+//! (2b) 9 statically typed grammars whose outputs are ZERO-SIZED values with a destructor (arrays via collect_exactly and group, Vec of zero-sized elements, memoized, folds, nested) x all words over {{a,b,c}}: live counter while the result is alive == instances held by the output, back to its previous value after the drop. (3) the same drivers under Miri (leak check, double free, uninitialised reads) and ASan+LSan.
 
 use crate::classes;
 use crate::drv::*;
@@ -317,6 +317,106 @@ pub fn token_family(acc: &mut Acc, words: &[Vec<char>]) {
     }
 }
 
+// -----------------------------------------------------------------------------------------------
+// (2b) zero-sized values with a destructor (no id to carry: only a live counter)
+
+thread_local! {
+    static Z_LIVE: std::cell::Cell<i64> = std::cell::Cell::new(0);
+    static Z_MADE: std::cell::Cell<u64> = std::cell::Cell::new(0);
+}
+/// A zero-sized output value whose construction and destruction are counted.
+pub struct Z;
+impl Z {
+    fn new() -> Z {
+        Z_LIVE.with(|c| c.set(c.get() + 1));
+        Z_MADE.with(|c| c.set(c.get() + 1));
+        Z
+    }
+}
+impl Clone for Z {
+    fn clone(&self) -> Z {
+        Z::new()
+    }
+}
+impl Drop for Z {
+    fn drop(&mut self) {
+        let _ = Z_LIVE.try_with(|c| c.set(c.get() - 1));
+    }
+}
+
+type EZ<'s> = extra::Err<Rich<'s, char>>;
+/// output: (number of Z instances the output holds, the output itself kept alive behind `Any`)
+type ZOut = (usize, Box<dyn std::any::Any>);
+
+fn zst_parsers<'s>() -> Vec<(&'static str, Boxed<'s, 's, &'s str, ZOut, EZ<'s>>)> {
+    fn keep<T: 'static>(n: usize, t: T) -> ZOut {
+        (n, Box::new(t))
+    }
+    let z = || any::<&str, EZ>().map(|_| Z::new());
+    let za = || just::<_, &str, EZ>('a').map(|_| Z::new());
+    vec![
+        ("any().map(Z).repeated().collect_exactly::<[Z;3]>()", z().repeated().collect_exactly::<[Z; 3]>().map(|a| keep(3, a)).boxed()),
+        ("just('a').map(Z).repeated().collect_exactly::<[Z;2]>().or_not().then(any().repeated())", za().repeated().collect_exactly::<[Z; 2]>().or_not().then_ignore(any().repeated()).map(|o| keep(o.as_ref().map(|a| a.len()).unwrap_or(0), o)).boxed()),
+        ("any().map(Z).repeated().at_most(2).collect_exactly::<[Z;3]>().or(any().map(Z).repeated().collect::<Vec<Z>>().map(..))", z().repeated().at_most(2).collect_exactly::<[Z; 3]>().map(|a| keep(3, a)).or(z().repeated().collect::<Vec<Z>>().map(|v| keep(v.len(), v))).boxed()),
+        ("just('a').map(Z).separated_by(just('b')).collect_exactly::<[Z;2]>().then(any().repeated())", za().separated_by(just('b')).collect_exactly::<[Z; 2]>().then_ignore(any().repeated()).map(|a| keep(2, a)).boxed()),
+        ("group([za, za, za]).or(group([za, z]).map(..)).or_not().then(any().repeated())", group([za().boxed(), za().boxed(), za().boxed()]).map(|a| keep(3, a)).or(group([za().boxed(), z().boxed()]).map(|a| keep(2, a))).or_not().then_ignore(any().repeated()).map(|o| o.unwrap_or_else(|| keep(0, ()))).boxed()),
+        ("any().map(Z).repeated().collect::<Vec<Z>>() (zero-sized elements)", z().repeated().collect::<Vec<Z>>().map(|v| keep(v.len(), v)).boxed()),
+        ("za.memoized().then(just('b')).or(za.memoized().then(just('a'))).repeated().collect()", za().memoized().then(just('b')).or(za().memoized().then(just('a'))).repeated().collect::<Vec<(Z, char)>>().map(|v| keep(v.len(), v)).boxed()),
+        ("za.foldl(any().map(Z).repeated(), keep the newer)", za().foldl(z().repeated(), |_old, new| new).map(|x| keep(1, x)).boxed()),
+        ("collect_exactly::<[Z;2]> inside a repetition that abandons its last iteration", z().repeated().collect_exactly::<[Z; 2]>().repeated().collect::<Vec<[Z; 2]>>().then_ignore(any().or_not()).map(|v| keep(v.len() * 2, v)).boxed()),
+    ]
+}
+
+pub fn zst_family<'s>(acc: &mut Acc, words: &'s [String]) {
+    assert_eq!(std::mem::size_of::<Z>(), 0);
+    let ps = zst_parsers::<'s>();
+    for (name, p) in &ps {
+        for w in words {
+            for mode in ["parse", "check"] {
+                acc.evaluations += 1;
+                acc.count("zero_sized_value_cases", 1);
+                let before = Z_LIVE.with(|c| c.get());
+                let made0 = Z_MADE.with(|c| c.get());
+                let r = guarded(|| {
+                    if mode == "parse" {
+                        let r = p.parse(w.as_str());
+                        let held = r.output().map(|o| o.0).unwrap_or(0) as i64;
+                        let live = Z_LIVE.with(|c| c.get());
+                        drop(r);
+                        (held, live)
+                    } else {
+                        let r = p.check(w.as_str());
+                        let live = Z_LIVE.with(|c| c.get());
+                        drop(r);
+                        (0, live)
+                    }
+                });
+                let after = Z_LIVE.with(|c| c.get());
+                let made = Z_MADE.with(|c| c.get()) - made0;
+                acc.count("zero_sized_values_created", made);
+                if let Ok((held, live_with_result)) = r {
+                    if made as i64 > held {
+                        acc.nontrivial_rand.insert(crate::rng::hash64(format!("zst|{}|{}|{}", name, w, mode).as_bytes()));
+                        acc.count("zero_sized_values_dropped_during_the_parse", (made as i64 - held) as u64);
+                    }
+                    let d = if after != before {
+                        Some(format!("{} zero-sized value(s) with a destructor still alive after the result was dropped (negative: dropped more often than created)", after - before))
+                    } else if live_with_result - before != held {
+                        Some(format!("when {}() returned, {} zero-sized value(s) were alive but the output holds {}", mode, live_with_result - before, held))
+                    } else {
+                        None
+                    };
+                    if let Some(d) = d {
+                        acc.viol(Viol { weight: 150 + w.len(), what: format!("C19: [{}] on {:?} ({}): {}", name, w, mode, d), detail: json!({"grammar_text": name, "input": w, "mode": mode, "created": made}) });
+                        // re-base so that one leak is not reported for every following case
+                        Z_LIVE.with(|c| c.set(before));
+                    }
+                }
+            }
+        }
+    }
+}
+
 fn small_bufs(max_len: usize) -> Vec<Buf> {
     all_inputs(&['a', 'b', 'é'], max_len).iter().map(|w| Buf::new(w)).collect()
 }
@@ -350,6 +450,14 @@ pub fn run(cx: &RunCtx) -> i32 {
     let tacc = for_each_index(words.len(), cx.threads, 4, |acc, i| token_family(acc, &words[i..i + 1]));
     acc.merge(tacc);
 
+    // (2b)
+    let zwords: Vec<String> = all_inputs(&['a', 'b', 'c'], cx.t(5, 6)).iter().map(|w| w.iter().collect()).collect();
+    let zacc = for_each_index(16, cx.threads, 1, |acc, shard| {
+        let mine: Vec<String> = zwords.iter().skip(shard).step_by(16).cloned().collect();
+        zst_family(acc, &mine);
+    });
+    acc.merge(zacc);
+
     // (3)
     crate::san::miri_job_flags(&mut acc, cx, "C19", "c19", cx.t(16, 48), cx.t(2, 8), "");
     if cx.thorough() {
@@ -360,7 +468,7 @@ pub fn run(cx: &RunCtx) -> i32 {
         cx,
         acc,
         Finish {
-            rule: format!("(1) every grammar with <= {size} nodes over a class with group([..;2|3]), tuple groups, collect_exactly::<[_;2|3]> (repeated and separated_by), Vec / unit repetitions, folds, lookahead, filter/try_map, via_parser recovery and memoized() x every input <= {max_len} over {{a,b,é}}, and {n_rand} random grammars of 4..13 nodes (also validate, all recovery strategies) x 6 inputs; every node's output carries a fresh drop-tracked value created by a map(); parse and check. Ledger oracle: while the ParseResult is alive the live tracked instances are exactly those reachable from the output (each once, none already dropped); after dropping it the live count is back to its value before the call; no instance is dropped twice. (2) 11 statically typed grammars whose outputs contain the tokens themselves (Vec, [T;2], [T;3], group of an array, folds, select, memoized, recovery) over drop-tracked tokens x all {nw} words <= {} over {{a,b,c}} on &[T] (originals must stay alive, clones balanced) and on Stream (everything balanced once the stream is gone). (3) the same drivers under Miri with leak checking (and ASan+LSan in the thorough tier). Non-trivial: runs in which values were created and dropped on abandoned / internal paths; token runs in which the parser cloned tokens", cx.t(4, 6)),
+            rule: format!("(1) every grammar with <= {size} nodes over a class with group([..;2|3]), tuple groups, collect_exactly::<[_;2|3]> (repeated and separated_by), Vec / unit repetitions, folds, lookahead, filter/try_map, via_parser recovery and memoized() x every input <= {max_len} over {{a,b,é}}, and {n_rand} random grammars of 4..13 nodes (also validate, all recovery strategies) x 6 inputs; every node's output carries a fresh drop-tracked value created by a map(); parse and check. Ledger oracle: while the ParseResult is alive the live tracked instances are exactly those reachable from the output (each once, none already dropped); after dropping it the live count is back to its value before the call; no instance is dropped twice. (2) 11 statically typed grammars whose outputs contain the tokens themselves (Vec, [T;2], [T;3], group of an array, folds, select, memoized, recovery) over drop-tracked tokens x all {nw} words <= {} over {{a,b,c}} on &[T] (originals must stay alive, clones balanced) and on Stream (everything balanced once the stream is gone). (2b) 9 statically typed grammars whose outputs are ZERO-SIZED values with a destructor (arrays via collect_exactly and group, Vec of zero-sized elements, memoized, folds, nested) x all words over {{a,b,c}}: live counter while the result is alive == instances held by the output, back to its previous value after the drop. (3) the same drivers under Miri with leak checking (and ASan+LSan in the thorough tier). Non-trivial: runs in which values were created and dropped on abandoned / internal paths; token runs in which the parser cloned tokens", cx.t(4, 6)),
             exhaustive: false,
             exhaustive_note: format!("grammars <= {size} nodes of the enumeration class x inputs <= {max_len}: complete"),
             assumptions: vec![
@@ -373,6 +481,8 @@ pub fn run(cx: &RunCtx) -> i32 {
                 ("values_handed_to_the_caller".into(), 50_000),
                 ("rejected_cases_with_fixed_size_collection_and_dropped_values".into(), 1000),
                 ("token_cases".into(), 1000),
+                ("zero_sized_value_cases".into(), 1000),
+                ("zero_sized_values_dropped_during_the_parse".into(), 1000),
                 ("token_clones_made_by_the_parser".into(), 1000),
                 ("miri_processes_clean".into(), 1),
             ],
@@ -407,5 +517,7 @@ pub fn san_job(size: usize, seed: u64, shard: usize) -> Value {
     let words: Vec<Vec<char>> = vec![vec![], vec!['a'], vec!['a', 'b'], vec!['a', 'b', 'c'], vec!['c', 'a', 'b', 'b'], vec!['a', 'a', 'b', 'c', 'a']];
     let pick = vec![words[rng.below(words.len())].clone(), words[(shard + 1) % words.len()].clone()];
     token_family(&mut acc, &pick[..(1 + (size > 8) as usize)]);
+    let zw: Vec<String> = ["", "a", "ab", "aab", "abab", "aaaa"].iter().map(|s| s.to_string()).collect();
+    zst_family(&mut acc, &zw[..(2 + size.min(4))]);
     acc.to_json()
 }
